@@ -1073,7 +1073,7 @@ def work_item(args):
     if Validator.cross_stats is None:
         Validator.cross_stats = {"queries": 0, "agree": 0, "inconclusive": 0, "disagree": 0}
     res = {"shape": sid, "body": body, "no_decomp": no_decomp, "profile": profile[0], "seed": seed,
-           "schedule": "".join(r[0] for r in schedule) + ("c" if "__companion__" in rules else ""),
+           "schedule": "".join(("A" if r == "all" else r[0]) for r in schedule) + ("c" if "__companion__" in rules else ""),
            "plans": [], "errors": [], "violations": [], "sanity": [], "chain": [], "cover": [], "solver_s": 0.0, "queries": 0}
     try:
         atoms = gen.parse_body(body)
@@ -1112,7 +1112,7 @@ def work_item(args):
             pdb = profile_db(atoms, profile, seed, ident)
             for rs, (outrel, ropts) in sorted(rules.items()):
                 ef = set()
-                for k_ in [k_ for k_, r_ in enumerate(schedule) if r_ == rs]:
+                for k_ in [k_ for k_, r_ in enumerate(schedule) if r_ == rs or r_ == "all"]:
                     # union over the runs: with merge functions a match of an earlier run may no longer hold later
                     ef |= eval_body(atoms, ident, merged(pdb, db_at_step(placed, k_, None, ident, 0)), small_only=False, head=head)
                     if len(ef) > 30000:
@@ -1178,7 +1178,14 @@ def work_item(args):
         for rs, (outrel, ropts) in sorted(rules.items()):
             V.out_tid = V.tid_of[outrel]
             recs = main_rule_records(events, V.out_tid)
-            my_steps = [k for k, r_ in enumerate(schedule) if r_ == rs]
+            my_steps = [k for k, r_ in enumerate(schedule) if r_ == rs or r_ == "all"]
+            # a combined ruleset can list one rule twice: the second record of the same run event must find nothing new
+            dup = [(i, rr_) for n_, (i, _f, rr_, _v, _p) in enumerate(recs) if n_ > 0 and recs[n_ - 1][0] == i]
+            for i_, rr_ in dup:
+                if rr_["mid_ts"] != rr_["next_ts"]:
+                    res["errors"].append("%s: ruleset %s: a rule listed twice in one run has last_run_at %d != next_ts %d the second time"
+                                         % (tag, rs, rr_["mid_ts"], rr_["next_ts"]))
+            recs = [rec_ for n_, rec_ in enumerate(recs) if n_ == 0 or recs[n_ - 1][0] != rec_[0]]
             if [ev_to_step.get(i) for (i, _, _, _, _) in recs] != my_steps:
                 res["errors"].append("%s: rule of ruleset %s ran at steps %s, scheduled %s"
                                      % (tag, rs, [ev_to_step.get(i) for (i, _, _, _, _) in recs], my_steps))
@@ -1365,11 +1372,13 @@ def shape_worker(args):
 
 
 C03_SCHEDULES_QUICK = [
+    ["other", "main", "all"],
     ["main", "other", "main"],
     ["main", "main", "other", "main"],
     ["other", "main", "main", "other", "main"],
 ]
 C03_SCHEDULES_THOROUGH = C03_SCHEDULES_QUICK + [
+    ["main", "all", "other", "all"],
     ["other", "other", "main", "main"],
     ["main", "other", "other", "main", "other", "main"],
     ["main", "main", "main", "main"],
